@@ -87,15 +87,15 @@ func lib(name, main string) fixedProg {
 func fixedPrograms(thorough bool) []fixedProg {
 	res := []fixedProg{
 		repo("testsuite/lang/pkg.mpcl", nil),
-		repo("testsuite/bytes/compare.mpcl", nil),
-		repo("testsuite/bytes/has_prefix.mpcl", nil),
+		repo("testsuite/bytes/compare.mpcl", [][]int{{64}, {64}}),
+		repo("testsuite/bytes/has_prefix.mpcl", [][]int{{64}, {32}}),
 		repo("apps/garbled/examples/add.mpcl", nil),
 		repo("apps/garbled/examples/div.mpcl", nil),
 		repo("apps/garbled/examples/hamming.mpcl", nil),
 		repo("apps/garbled/examples/key-import.mpcl", nil),
 		repo("apps/garbled/examples/credit.mpcl", nil),
 		repo("apps/garbled/examples/rps.mpcl", nil),
-		repo("testsuite/crypto/sha1.mpcl", nil),
+		repo("testsuite/crypto/sha1.mpcl", [][]int{{64}, {64}}),
 		repo("apps/garbled/examples/aesblock2.mpcl", nil),
 		lib("hex+aes", `package main
 
